@@ -6,6 +6,7 @@ import (
 	"go/token"
 	"go/types"
 	"strconv"
+	"strings"
 )
 
 // A small abstract interpreter for decision functions: functions that take a
@@ -414,6 +415,25 @@ func (ev *miniEval) call(x *ast.CallExpr) mval {
 		}
 	}
 	fn := Callee(ev.info, x)
+	if fn != nil && fn.Pkg() != nil && fn.Pkg().Path() == "strings" && len(x.Args) == 2 {
+		a, b := ev.expr(x.Args[0]), ev.expr(x.Args[1])
+		if a.k == mvStr && b.k == mvStr {
+			switch fn.Name() {
+			case "HasPrefix":
+				return mBool(strings.HasPrefix(a.s, b.s))
+			case "HasSuffix":
+				return mBool(strings.HasSuffix(a.s, b.s))
+			case "Contains":
+				return mBool(strings.Contains(a.s, b.s))
+			case "EqualFold":
+				return mBool(strings.EqualFold(a.s, b.s))
+			case "TrimPrefix":
+				return mStr(strings.TrimPrefix(a.s, b.s))
+			case "TrimSuffix":
+				return mStr(strings.TrimSuffix(a.s, b.s))
+			}
+		}
+	}
 	if fn != nil && fn.Pkg() != nil && fn.Pkg().Path() == "slices" && len(x.Args) == 2 {
 		switch fn.Name() {
 		case "Contains":
